@@ -144,6 +144,7 @@ pub fn check(c: &Case, rec: &mut Rec) -> Result<(), Violation> {
   };
   if fi.abs() > 1e-6 && fj.abs() > 1e-6 && (0.5 - fi.abs()) > 1e-6 && (0.5 - fj.abs()) > 1e-6 && nb[quad_dir].is_none() {
     rec.class("missing_corner_quadrant");
+    rec.class(&format!("missing_{}_{}", lattice::WIND_NAMES[quad_dir], if owner.b < 4 { "north_cap" } else if owner.b < 8 { "equatorial" } else { "south_cap" }));
     let has_zero = res.iter().any(|(h, w)| *w == 0.0 && *h == oh);
     if !has_zero {
       return Err(f(Violation::new("missing_corner", "no_zero_weight", format!("bilinear_interpolation({}, {:e}, {:e}) = {:?}: cell {} has no {} neighbour but no entry with weight 0 stands for it", d, lon, lat, res, oh, lattice::WIND_NAMES[quad_dir]))));
